@@ -16,6 +16,8 @@ import (
 	"path/filepath"
 	"sort"
 	"strings"
+	"syscall"
+	"time"
 
 	"github.com/la5nta/wl2k-go/fbb"
 	"github.com/la5nta/wl2k-go/mailbox"
@@ -63,6 +65,7 @@ var sizes = map[string][2]int{"small": {30, 0}, "medium": {900, 0}, "large": {30
 var sizeNames = []string{"small", "medium", "large"}
 
 const targetMID = "TARGET000001"
+const dotMID = ".BYDOT000001"
 
 // longMID: a legal identifier (no separators) so long that "<MID>.b2f" still fits a file name but a
 // longer temporary name built from it does not (NAME_MAX 255).
@@ -111,6 +114,9 @@ func upper(rel string) string {
 
 // applyVar re-arranges how the operation's message is stored (see scenario.Var).
 func (sc scenario) applyVar(dir string) error {
+	if sc.Var == "sentfs" {
+		return nil // arranged per run, see bench.fresh
+	}
 	for _, rel := range sc.targetPaths() {
 		p := filepath.Join(dir, rel)
 		if st, err := os.Lstat(p); err != nil || !st.Mode().IsRegular() {
@@ -202,6 +208,12 @@ func (sc scenario) buildPreRegular(dir string) error {
 			h.SetSent(b.mid, false)
 		}
 	}
+	if sc.Pre >= 3 {
+		// a stored message whose identifier begins with a dot (legal): its file is a hidden file of the inbox
+		if err := h.ProcessInbound(mboxkit.MsgSpec{MID: dotMID, To: []string{"N0AAA"}, BodyLen: 333, Tag: "dot"}.Build()); err != nil {
+			return err
+		}
+	}
 	switch sc.Op {
 	case "ProcessInbound-dup":
 		return h.ProcessInbound(sc.target("new").Build())
@@ -252,7 +264,9 @@ type bench struct {
 	rec     mboxkit.Trace     // the recording run
 	nViol   int
 	inconcl int
-	opFails bool // the undisturbed operation ends with an error (see record)
+	opFails bool   // the undisturbed operation ends with an error (see record)
+	nRecov  int    // recoveries checked so far
+	ext     string // Var "sentfs": this run's sent folder on the other file system
 }
 
 func (b *bench) violate(key, point, format string, a ...any) {
@@ -282,12 +296,48 @@ func newBench(o *vrt.Obs, sc scenario) (*bench, error) {
 	return b, nil
 }
 
-func (b *bench) close() { os.RemoveAll(b.base) }
+func (b *bench) close() {
+	os.RemoveAll(b.base)
+	if b.ext != "" {
+		os.RemoveAll(b.ext)
+	}
+}
 
 // fresh gives the next run its own copy of the prepared mailbox.
 func (b *bench) fresh() error {
 	os.RemoveAll(b.runDir)
-	return mboxkit.CopyTree(b.preDir, b.runDir)
+	if err := mboxkit.CopyTree(b.preDir, b.runDir); err != nil {
+		return err
+	}
+	if b.sc.Var != "sentfs" {
+		return nil
+	}
+	// the sent folder lives on another file system (a linked folder on a bigger disk): a new directory there for every run
+	if b.ext != "" {
+		os.RemoveAll(b.ext)
+	}
+	ext, err := os.MkdirTemp(os.TempDir(), "verif-mbox-c11ext-")
+	if err != nil {
+		return err
+	}
+	b.ext = ext
+	sent := filepath.Join(b.runDir, "sent")
+	if err := mboxkit.CopyTree(sent, ext); err != nil {
+		return err
+	}
+	if err := os.RemoveAll(sent); err != nil {
+		return err
+	}
+	return os.Symlink(ext, sent)
+}
+
+// otherFileSystem reports whether the system's temporary directory is on another device than the mailbox scratch area.
+func otherFileSystem() bool {
+	var a, c syscall.Stat_t
+	if syscall.Stat(mboxkit.TempBase(), &a) != nil || syscall.Stat(os.TempDir(), &c) != nil {
+		return false
+	}
+	return a.Dev != c.Dev
 }
 
 // traced runs the operation once in a child under strace.
@@ -316,6 +366,15 @@ func (b *bench) record() bool {
 	// an identifier the file system cannot take may make the undisturbed operation fail cleanly: that is
 	// a legitimate outcome (nothing stored, nothing damaged), and the crash points are enumerated all the same
 	b.opFails = err == nil && t.ExitCode == mboxkit.ExitOpError && strings.HasSuffix(b.sc.Op, "-longmid")
+	if b.sc.Var == "sentfs" && err == nil && t.BeginSeen && !t.EndSeen && t.ExitCode != 0 && !t.Killed {
+		// the unchanged library cannot move a message to another file system and ends the process (log.Fatalf, as for
+		// every failing rename in SetSent): the message must simply still be in the outbox
+		b.o.Count("setsent_across_file_systems_ended_the_process", 1)
+		b.o.Evals++
+		b.recovery("the operation ended the process by itself (SetSent across file systems)")
+		b.o.Sig("%s|process-exit", b.sc)
+		return false
+	}
 	if err != nil || !t.BeginSeen || !t.EndSeen || (t.ExitCode != mboxkit.ExitOpOK && !b.opFails) || t.OtherThread != 0 {
 		b.o.Inconclusive = append(b.o.Inconclusive, fmt.Sprintf("%s: recording run unusable (err=%v begin=%v end=%v exit=%d out=%q other-thread calls=%d)", b.sc, err, t.BeginSeen, t.EndSeen, t.ExitCode, t.Stdout, t.OtherThread))
 		return false
@@ -505,11 +564,28 @@ func (b *bench) recovery(point string) {
 	for _, p := range b.sc.targetPaths() {
 		isTarget[p] = true
 	}
+	b.nRecov++
+	if b.nRecov%2 == 0 {
+		// every other restart happens a day later: whatever the crash (and the time before it) left in the mailbox is
+		// 26 hours old when the program comes up again
+		old := time.Now().Add(-26 * time.Hour)
+		filepath.Walk(b.runDir, func(p string, info os.FileInfo, err error) error {
+			if err == nil && info.Mode().IsRegular() {
+				os.Chtimes(p, old, old)
+			}
+			return nil
+		})
+		o.Count("restarts_a_day_after_the_crash", 1)
+	}
 	vrt.Guard(o, func() {
 		h := mailbox.NewDirHandler(b.runDir, false)
 		// clause 1: every folder loads
 		if err := h.Prepare(); err != nil {
 			b.violate("prepare-error", point, "Prepare() on the restarted mailbox failed: %v", err)
+		}
+		// what the restarted program's start-up left of the tree (the listings below only read)
+		if again, err := mboxkit.ReadTree(b.runDir); err == nil {
+			post = again
 		}
 		listed := map[string]map[string][][]byte{}
 		for _, f := range []struct {
@@ -576,7 +652,7 @@ func (b *bench) recovery(point string) {
 			case !oneOf(allowed, mboxkit.Canon(got)):
 				b.violate("stored-message-damaged", point, "%s was stored before the operation and is now neither the old nor the complete new version: %d bytes %q...", rel, len(got), head(got, 60))
 			default:
-				if l, ok := listed[folder]; ok {
+				if l, ok := listed[folder]; ok && !strings.HasPrefix(base, ".") { // hidden files are not listed (counted only)
 					found := false
 					for _, v := range l[mid] {
 						found = found || oneOf(allowed, v)
